@@ -38,8 +38,13 @@ class Findings:
                  "panic", "rebuild-error", "rebuild-unparsable", "rebuild-tree", "rebuild-unstable", "corpus-tree", "trace"]
         rank = lambda kk: (order.index(kk[0][0]) if kk[0][0] in order else len(order), kk[0])
         for (kind, key), e in sorted(self.by_key.items(), key=rank):
-            rep.violation(kind, key, {"kind": kind, "key": key, "inputs_affected_this_run": e["count"], "seed": seed,
-                                      "examples": e["examples"], "how": "bin/check %s --replay <this file>" % rep.prop})
+            new = rep.violation(kind, key, {"kind": kind, "key": key, "inputs_affected_this_run": e["count"], "seed": seed,
+                                            "examples": e["examples"], "how": "bin/check %s --replay <this file>" % rep.prop})
+            if not new:
+                # matched a known finding: let the KNOWN-FINDING line count the inputs, not the keys
+                k = rep.match_known(kind, key)
+                if k is not None:
+                    rep.known_hits[k["id"]].extend([key] * (e["count"] - 1))
 
 
 def example(case, layout, d, a, message):
